@@ -1403,8 +1403,8 @@ package apd
 //@   pure
 //@   allocates
 //@   ensures [text] DecText(bytes(ret), 0, d.Form, d.Negative, val(d.Coeff), d.Exponent, 71)
-//@   ensures [parses] d.Form == Finite && inlimitsB(val(d.Coeff), d.Exponent) ==> FinText(bytes(ret), d.Negative, val(d.Coeff), d.Exponent, 69)
-//@   ensures [parses_special] d.Form != Finite && inv(d) ==> SpecText(bytes(ret), d.Form, d.Negative)
+//@   ensures {C13} [parses] d.Form == Finite && inlimitsB(val(d.Coeff), d.Exponent) ==> FinText(bytes(ret), d.Negative, val(d.Coeff), d.Exponent, 69)
+//@   ensures {C13} [parses_special] d.Form != Finite && inv(d) ==> SpecText(bytes(ret), d.Form, d.Negative)
 
 //@ func (*Decimal).Float64
 //@   trusted strconv.ParseFloat of the text form; the float result is never interpreted by the verifier
@@ -2147,24 +2147,24 @@ package apd
 //@   requires writable(d) && c != nil
 //@   assigns d
 //@   ghost gneg: bool, gC: int, gE: int, gech: int
-//@   ensures [rt_inf] DecText(bytes(s), 0, Infinite, gneg, 0, 0, 71) ==> ret1 == nil && ret0 == 0 && d.Form == Infinite && d.Negative == gneg && val(d.Coeff) == 0 && d.Exponent == 0
-//@   ensures [rt_nan] DecText(bytes(s), 0, NaN, gneg, 0, 0, 71) ==> ret1 == nil && ret0 == 0 && d.Form == NaN && d.Negative == gneg && val(d.Coeff) == 0 && d.Exponent == 0
+//@   ensures {C13} [rt_inf] DecText(bytes(s), 0, Infinite, gneg, 0, 0, 71) ==> ret1 == nil && ret0 == 0 && d.Form == Infinite && d.Negative == gneg && val(d.Coeff) == 0 && d.Exponent == 0
+//@   ensures {C13} [rt_nan] DecText(bytes(s), 0, NaN, gneg, 0, 0, 71) ==> ret1 == nil && ret0 == 0 && d.Form == NaN && d.Negative == gneg && val(d.Coeff) == 0 && d.Exponent == 0
 // Finite texts (C13): if the text is what the formatter writes for (gneg, gC, gE) - plain notation with exponent <= 0, or
 // scientific notation with the letter E or e - and the value lies inside the context's limits, the parse succeeds and
 // yields exactly that sign, coefficient and exponent. TXT: the optional sign. The ghost assertions name the texts handed to
 // the two number parsers: the mantissa is gC's decimal text behind z leading zeros, the exponent text is a sign and the
 // decimal text of |gE + nd - 1|.
-//@   ensures [rt_int] ctxsane(c) && inlimits0(c, gC, 0) && TXT(bytes(s), gneg) && PlainText(bytes(s), ite(gneg, 1, 0), gC, 0) ==> RT(d, ret0, ret1, gneg, gC, 0)
-//@   assert before (*BigInt).SetString#1: [mant_int] ctxsane(c) && inlimits0(c, gC, 0) && TXT(bytes(orig), gneg) && PlainText(bytes(orig), ite(gneg, 1, 0), gC, 0) ==> uf_utext(now(s), 0, gC) == 1
-//@   ensures [rt_small] ctxsane(c) && inlimits0(c, gC, gE) && gE < 0 && -gE >= nd10(gC) && TXT(bytes(s), gneg) && PlainText(bytes(s), ite(gneg, 1, 0), gC, gE) ==> RT(d, ret0, ret1, gneg, gC, gE)
-//@   assert before (*BigInt).SetString#1: [mant_small] ctxsane(c) && inlimits0(c, gC, gE) && gE < 0 && -gE >= nd10(gC) && TXT(bytes(orig), gneg) && PlainText(bytes(orig), ite(gneg, 1, 0), gC, gE) ==> uf_utext(now(s), 1 - gE - nd10(gC), gC) == 1
-//@   ensures [rt_point] ctxsane(c) && inlimits0(c, gC, gE) && gE < 0 && -gE < nd10(gC) && TXT(bytes(s), gneg) && PlainText(bytes(s), ite(gneg, 1, 0), gC, gE) ==> RT(d, ret0, ret1, gneg, gC, gE)
-//@   assert before (*BigInt).SetString#1: [mant_point] ctxsane(c) && inlimits0(c, gC, gE) && gE < 0 && -gE < nd10(gC) && TXT(bytes(orig), gneg) && PlainText(bytes(orig), ite(gneg, 1, 0), gC, gE) ==> uf_utext(now(s), 0, gC) == 1
-//@   ensures [rt_sci] ctxsane(c) && inlimits0(c, gC, gE) && nd10(gC) <= 100001 && (gech == 69 || gech == 101) && TXT(bytes(s), gneg) && SciText(bytes(s), ite(gneg, 1, 0), gC, gE, gech) ==> RT(d, ret0, ret1, gneg, gC, gE)
-//@   ensures [rt_sci_long] ctxsane(c) && inlimits0(c, gC, gE) && nd10(gC) > 100001 && (gech == 69 || gech == 101) && TXT(bytes(s), gneg) && SciText(bytes(s), ite(gneg, 1, 0), gC, gE, gech) ==> RT(d, ret0, ret1, gneg, gC, gE)
-//@   assert before strconv.ParseInt#1: [expo_sci] ctxsane(c) && inlimits0(c, gC, gE) && (gech == 69 || gech == 101) && TXT(bytes(orig), gneg) && SciText(bytes(orig), ite(gneg, 1, 0), gC, gE, gech) ==> uf_stext(arg0, ite(gE + nd10(gC) - 1 < 0, 45, 43), abs(gE + nd10(gC) - 1)) == 1
-//@   assert before (*BigInt).SetString#1: [mant_sci] ctxsane(c) && inlimits0(c, gC, gE) && (gech == 69 || gech == 101) && TXT(bytes(orig), gneg) && SciText(bytes(orig), ite(gneg, 1, 0), gC, gE, gech) ==> uf_utext(now(s), 0, gC) == 1
-//@   ensures [rt_snan] DecText(bytes(s), 0, NaNSignaling, gneg, 0, 0, 71) ==> ret1 == nil && ret0 == 0 && d.Form == NaNSignaling && d.Negative == gneg && val(d.Coeff) == 0 && d.Exponent == 0
+//@   ensures {C13} [rt_int] ctxsane(c) && inlimits0(c, gC, 0) && TXT(bytes(s), gneg) && PlainText(bytes(s), ite(gneg, 1, 0), gC, 0) ==> RT(d, ret0, ret1, gneg, gC, 0)
+//@   assert before (*BigInt).SetString#1: {C13} [mant_int] ctxsane(c) && inlimits0(c, gC, 0) && TXT(bytes(orig), gneg) && PlainText(bytes(orig), ite(gneg, 1, 0), gC, 0) ==> uf_utext(now(s), 0, gC) == 1
+//@   ensures {C13} [rt_small] ctxsane(c) && inlimits0(c, gC, gE) && gE < 0 && -gE >= nd10(gC) && TXT(bytes(s), gneg) && PlainText(bytes(s), ite(gneg, 1, 0), gC, gE) ==> RT(d, ret0, ret1, gneg, gC, gE)
+//@   assert before (*BigInt).SetString#1: {C13} [mant_small] ctxsane(c) && inlimits0(c, gC, gE) && gE < 0 && -gE >= nd10(gC) && TXT(bytes(orig), gneg) && PlainText(bytes(orig), ite(gneg, 1, 0), gC, gE) ==> uf_utext(now(s), 1 - gE - nd10(gC), gC) == 1
+//@   ensures {C13} [rt_point] ctxsane(c) && inlimits0(c, gC, gE) && gE < 0 && -gE < nd10(gC) && TXT(bytes(s), gneg) && PlainText(bytes(s), ite(gneg, 1, 0), gC, gE) ==> RT(d, ret0, ret1, gneg, gC, gE)
+//@   assert before (*BigInt).SetString#1: {C13} [mant_point] ctxsane(c) && inlimits0(c, gC, gE) && gE < 0 && -gE < nd10(gC) && TXT(bytes(orig), gneg) && PlainText(bytes(orig), ite(gneg, 1, 0), gC, gE) ==> uf_utext(now(s), 0, gC) == 1
+//@   ensures {C13} [rt_sci] ctxsane(c) && inlimits0(c, gC, gE) && nd10(gC) <= 100001 && (gech == 69 || gech == 101) && TXT(bytes(s), gneg) && SciText(bytes(s), ite(gneg, 1, 0), gC, gE, gech) ==> RT(d, ret0, ret1, gneg, gC, gE)
+//@   ensures {C13} [rt_sci_long] ctxsane(c) && inlimits0(c, gC, gE) && nd10(gC) > 100001 && (gech == 69 || gech == 101) && TXT(bytes(s), gneg) && SciText(bytes(s), ite(gneg, 1, 0), gC, gE, gech) ==> RT(d, ret0, ret1, gneg, gC, gE)
+//@   assert before strconv.ParseInt#1: {C13} [expo_sci] ctxsane(c) && inlimits0(c, gC, gE) && (gech == 69 || gech == 101) && TXT(bytes(orig), gneg) && SciText(bytes(orig), ite(gneg, 1, 0), gC, gE, gech) ==> uf_stext(arg0, ite(gE + nd10(gC) - 1 < 0, 45, 43), abs(gE + nd10(gC) - 1)) == 1
+//@   assert before (*BigInt).SetString#1: {C13} [mant_sci] ctxsane(c) && inlimits0(c, gC, gE) && (gech == 69 || gech == 101) && TXT(bytes(orig), gneg) && SciText(bytes(orig), ite(gneg, 1, 0), gC, gE, gech) ==> uf_utext(now(s), 0, gC) == 1
+//@   ensures {C13} [rt_snan] DecText(bytes(s), 0, NaNSignaling, gneg, 0, 0, 71) ==> ret1 == nil && ret0 == 0 && d.Form == NaNSignaling && d.Negative == gneg && val(d.Coeff) == 0 && d.Exponent == 0
 //@   ensures [wf] ret1 == nil ==> inv(d)
 //@   ensures [closed] closed(ret0)
 //@ func (*Decimal).SetString
@@ -2174,8 +2174,8 @@ package apd
 //@   requires writable(d)
 //@   assigns d
 //@   ghost gneg: bool, gC: int, gE: int, gech: int, gform: int
-//@   ensures [rt_fin] inlimitsB(gC, gE) && FinText(bytes(s), gneg, gC, gE, gech) ==> ret2 == nil && ret0 == d && ret1 == 0 && d.Form == Finite && d.Negative == gneg && val(d.Coeff) == gC && d.Exponent == gE
-//@   ensures [rt_spec] SpecText(bytes(s), gform, gneg) ==> ret2 == nil && ret0 == d && d.Form == gform && d.Negative == gneg
+//@   ensures {C13} [rt_fin] inlimitsB(gC, gE) && FinText(bytes(s), gneg, gC, gE, gech) ==> ret2 == nil && ret0 == d && ret1 == 0 && d.Form == Finite && d.Negative == gneg && val(d.Coeff) == gC && d.Exponent == gE
+//@   ensures {C13} [rt_spec] SpecText(bytes(s), gform, gneg) ==> ret2 == nil && ret0 == d && d.Form == gform && d.Negative == gneg
 //@   ensures [wf] ret2 == nil ==> inv(d) && ret0 == d
 //@ func (*Context).SetString
 //@   props C04 C06 C07 C03 C01 C13
@@ -2183,8 +2183,8 @@ package apd
 //@   requires writable(d)
 //@   assigns d
 //@   ghost gneg: bool, gC: int, gE: int, gech: int, gform: int
-//@   ensures [rt_fin] p0ctx(c) && inlimits0(c, gC, gE) && FinText(bytes(s), gneg, gC, gE, gech) ==> ret2 == nil && ret0 == d && ret1 == 0 && d.Form == Finite && d.Negative == gneg && val(d.Coeff) == gC && d.Exponent == gE
-//@   ensures [rt_spec] p0ctx(c) && SpecText(bytes(s), gform, gneg) ==> ret2 == nil && ret0 == d && d.Form == gform && d.Negative == gneg
+//@   ensures {C13} [rt_fin] p0ctx(c) && inlimits0(c, gC, gE) && FinText(bytes(s), gneg, gC, gE, gech) ==> ret2 == nil && ret0 == d && ret1 == 0 && d.Form == Finite && d.Negative == gneg && val(d.Coeff) == gC && d.Exponent == gE
+//@   ensures {C13} [rt_spec] p0ctx(c) && SpecText(bytes(s), gform, gneg) ==> ret2 == nil && ret0 == d && d.Form == gform && d.Negative == gneg
 //@   ensures [wf] ret2 == nil ==> inv(d) && ret0 == d
 //@   ensures [fits] wfctx(c) && ret2 == nil && !hassys(ret1) ==> fits(c, d)
 //@   ensures [trap] ret2 == nil ==> !trapped(c, ret1)
@@ -2195,8 +2195,8 @@ package apd
 //@   assigns nothing
 //@   allocates
 //@   ghost gneg: bool, gC: int, gE: int, gech: int, gform: int
-//@   ensures [rt_fin] p0ctx(c) && inlimits0(c, gC, gE) && FinText(bytes(s), gneg, gC, gE, gech) ==> ret2 == nil && ret0 != nil && ret1 == 0 && ret0.Form == Finite && ret0.Negative == gneg && val(ret0.Coeff) == gC && ret0.Exponent == gE
-//@   ensures [rt_spec] p0ctx(c) && SpecText(bytes(s), gform, gneg) ==> ret2 == nil && ret0 != nil && ret0.Form == gform && ret0.Negative == gneg
+//@   ensures {C13} [rt_fin] p0ctx(c) && inlimits0(c, gC, gE) && FinText(bytes(s), gneg, gC, gE, gech) ==> ret2 == nil && ret0 != nil && ret1 == 0 && ret0.Form == Finite && ret0.Negative == gneg && val(ret0.Coeff) == gC && ret0.Exponent == gE
+//@   ensures {C13} [rt_spec] p0ctx(c) && SpecText(bytes(s), gform, gneg) ==> ret2 == nil && ret0 != nil && ret0.Form == gform && ret0.Negative == gneg
 //@   ensures [wf] ret2 == nil ==> ret0 != nil && inv(ret0)
 //@ func NewFromString
 //@   props C04 C01 C07 C13
@@ -2205,8 +2205,8 @@ package apd
 //@   allocates
 //@   assert before (*Context).NewFromString#1: [basectx] BaseContext.Precision == 0 && BaseContext.MaxExponent == 100000 && BaseContext.MinExponent == -100000
 //@   ghost gneg: bool, gC: int, gE: int, gech: int, gform: int
-//@   ensures [rt_fin] inlimitsB(gC, gE) && FinText(bytes(s), gneg, gC, gE, gech) ==> ret2 == nil && ret0 != nil && ret1 == 0 && ret0.Form == Finite && ret0.Negative == gneg && val(ret0.Coeff) == gC && ret0.Exponent == gE
-//@   ensures [rt_spec] SpecText(bytes(s), gform, gneg) ==> ret2 == nil && ret0 != nil && ret0.Form == gform && ret0.Negative == gneg
+//@   ensures {C13} [rt_fin] inlimitsB(gC, gE) && FinText(bytes(s), gneg, gC, gE, gech) ==> ret2 == nil && ret0 != nil && ret1 == 0 && ret0.Form == Finite && ret0.Negative == gneg && val(ret0.Coeff) == gC && ret0.Exponent == gE
+//@   ensures {C13} [rt_spec] SpecText(bytes(s), gform, gneg) ==> ret2 == nil && ret0 != nil && ret0.Form == gform && ret0.Negative == gneg
 //@   ensures [wf] ret2 == nil ==> ret0 != nil && inv(ret0)
 // ---------------------------------------------------------------- formatting: no panic (C04); the text itself is C13/C14
 // Etail(s, m, e, adj): s ends at m with the exponent part: the letter e, a sign, the decimal text of |adj|
@@ -2339,8 +2339,8 @@ package apd
 //@   pure
 //@   allocates
 //@   ensures [text] DecText(bytes(ret), 0, d.Form, d.Negative, val(d.Coeff), d.Exponent, format)
-//@   ensures [parses] d.Form == Finite && inlimitsB(val(d.Coeff), d.Exponent) && (format == 71 || format == 103 || ((format == 69 || format == 101) && nd10(val(d.Coeff)) <= 100001)) ==> FinText(bytes(ret), d.Negative, val(d.Coeff), d.Exponent, ite(format == 71, 69, ite(format == 103, 101, format)))
-//@   ensures [parses_special] d.Form != Finite && inv(d) ==> SpecText(bytes(ret), d.Form, d.Negative)
+//@   ensures {C13} [parses] d.Form == Finite && inlimitsB(val(d.Coeff), d.Exponent) && (format == 71 || format == 103 || ((format == 69 || format == 101) && nd10(val(d.Coeff)) <= 100001)) ==> FinText(bytes(ret), d.Negative, val(d.Coeff), d.Exponent, ite(format == 71, 69, ite(format == 103, 101, format)))
+//@   ensures {C13} [parses_special] d.Form != Finite && inv(d) ==> SpecText(bytes(ret), d.Form, d.Negative)
 // ---------------------------------------------------------------- byte-level conversions: no panic, well-formed results (the bytes themselves are C13)
 //@ func math/big.(*Int).FillBytes
 //@   trusted math/big (panics when the magnitude does not fit in buf; fills buf with the big-endian magnitude, zero-extended, and returns buf)
@@ -2580,8 +2580,8 @@ package apd
 //@   requires writable(d)
 //@   assigns d
 //@   ghost gneg: bool, gC: int, gE: int, gech: int, gform: int
-//@   ensures [rt_fin] inlimitsB(gC, gE) && FinText(b, gneg, gC, gE, gech) ==> ret == nil && d.Form == Finite && d.Negative == gneg && val(d.Coeff) == gC && d.Exponent == gE
-//@   ensures [rt_spec] SpecText(b, gform, gneg) ==> ret == nil && d.Form == gform && d.Negative == gneg
+//@   ensures {C13} [rt_fin] inlimitsB(gC, gE) && FinText(b, gneg, gC, gE, gech) ==> ret == nil && d.Form == Finite && d.Negative == gneg && val(d.Coeff) == gC && d.Exponent == gE
+//@   ensures {C13} [rt_spec] SpecText(b, gform, gneg) ==> ret == nil && d.Form == gform && d.Negative == gneg
 //@   ensures [wf] ret == nil ==> inv(d)
 //@ func (*Decimal).MarshalText
 //@   props C04 C14
@@ -2589,5 +2589,5 @@ package apd
 //@   nilable d
 //@   requires d != nil ==> inv(d)
 //@   ensures [text] d != nil ==> ret1 == nil && DecText(ret0, 0, d.Form, d.Negative, val(d.Coeff), d.Exponent, 71)
-//@   ensures [parses] d != nil && d.Form == Finite && inlimitsB(val(d.Coeff), d.Exponent) ==> FinText(ret0, d.Negative, val(d.Coeff), d.Exponent, 69)
-//@   ensures [parses_special] d != nil && d.Form != Finite ==> SpecText(ret0, d.Form, d.Negative)
+//@   ensures {C13} [parses] d != nil && d.Form == Finite && inlimitsB(val(d.Coeff), d.Exponent) ==> FinText(ret0, d.Negative, val(d.Coeff), d.Exponent, 69)
+//@   ensures {C13} [parses_special] d != nil && d.Form != Finite ==> SpecText(ret0, d.Form, d.Negative)
